@@ -124,7 +124,10 @@ def _gen_from(rnd):
         # two generators describe one block differently: A hands everything below it to a '~ %global' rule, B lists '~' as a plain rule
         # with children rules of its own; merged, the row is global (A passes the whole subtree alone, so the union must)
         cand = [r for r in a if len(r["children"]) == 1 and r["children"][0]["toks"] == ["~"] and r["children"][0].get("glob")]
-        if cand:
+        # (B's plain '~' rule must be the only rule that can govern the lines of that block: next to an inherited %global rule the
+        # governing rule is chosen by the specificity metric - and when a global one wins, the children rules of the local ones are
+        # not applied -, which the property leaves open; so no top-level %global rules in either ACL here)
+        if cand and not any(x.get("glob") for x in a + b):
             r = rnd.choice(cand)
             if not any(x["toks"][0] == r["toks"][0] for x in b):
                 b.append(RA.acl_rule(list(r["toks"]), [RA.acl_rule(["~"], [RA.acl_rule([rnd.choice(HEADS), "~"])])], cd=r.get("cd"),
